@@ -46,7 +46,7 @@ func start(twoHosts bool, multi ...bool) *world {
 			if lerr != nil {
 				panic(fmt.Sprintf("host listen: %v", lerr))
 			}
-			ns, nerr := services.Namespace(s, []string{"tcp://198.18.0.1:9559", "tcp://nobody-" + name, addr})
+			ns, nerr := services.Namespace(s, []string{"tcp://198.18.0.1:9559", "tcp://nobody", addr})
 			if nerr != nil {
 				panic(fmt.Sprintf("host namespace: %v", nerr))
 			}
@@ -305,8 +305,123 @@ func unreachable() {
 	}
 	vrt.Observe("kind=%d e1=%v", kind, e1 != nil)
 }
+// register a service name with arbitrary addresses through a helper session.
+func advertise(name string, eps []string) bool {
+	hs, err := session.NewSession("tcp://sd")
+	if err != nil {
+		panic(err)
+	}
+	ns, err := services.Namespace(hs, eps)
+	if err != nil {
+		panic(err)
+	}
+	id, err := ns.Reserve(name)
+	if err != nil {
+		vrt.Failf("harness/reserve", "%v", err)
+		return false
+	}
+	if err := ns.Enable(id); err != nil {
+		vrt.Failf("harness/enable", "%v", err)
+		return false
+	}
+	return true
+}
+
+// hung: one of the registered services sits behind an endpoint that accepts
+// connections but never answers (not even the authentication): the goroutine
+// asking for it waits; the other goroutines, asking for healthy services or
+// for connections already pooled, are served.
+func hung() {
+	w := start(false)
+	if _, err := vnet.Listen("tcp", "hung"); err != nil {
+		panic(err)
+	}
+	if !advertise("Hung", []string{"tcp://hung"}) {
+		return
+	}
+	vrt.Quiesce()
+	vrt.Explore()
+	var e1, e2 error
+	ok1, ok2 := false, false
+	vrt.GoNamed("asks-hung", func() { w.sess.Proxy("Hung", 1) })
+	vrt.Quiesce() // the request for Hung is waiting for an answer that never comes
+	w1 := vrt.GoWorker("asks-probe", func() {
+		p, err := w.sess.Proxy("Probe", 1)
+		if err == nil {
+			var v int32
+			v, err = probe.MakeProbe(w.sess, p).Echo(5)
+			ok1 = err == nil && v == probe.EchoResult(5)
+		}
+		e1 = err
+	})
+	w2 := vrt.GoWorker("asks-directory", func() {
+		p, err := w.sess.Proxy("ServiceDirectory", 1)
+		if err == nil {
+			var l []services.ServiceInfo
+			l, err = services.MakeServiceDirectory(w.sess, p).Services()
+			ok2 = err == nil && len(l) >= 2
+		}
+		e2 = err
+	})
+	vrt.Quiesce()
+	if !w1.Done() || !w2.Done() {
+		vrt.Failf("request-blocked-by-another/hung-endpoint", "while one goroutine waits for an endpoint that never answers, the others are not served (Probe done=%v on %s, ServiceDirectory done=%v on %s)", w1.Done(), w1.BlockedOn(), w2.Done(), w2.BlockedOn())
+	} else if !ok1 || !ok2 {
+		vrt.Failf("request-failed/hung-endpoint", "requests for healthy services failed while another endpoint hangs: %v / %v", e1, e2)
+	}
+	vrt.Observe("ok=%v,%v", ok1, ok2)
+}
+
+// failedThenAgain: a request that fails remotely (no such object) must not
+// make the session forget - or duplicate - the healthy pooled connection.
+func failedThenAgain() {
+	w := start(false)
+	p, err := w.sess.Proxy("Probe", 1)
+	if err != nil {
+		vrt.Failf("request-failed/Probe", "first request: %v", err)
+		return
+	}
+	vrt.Quiesce()
+	vrt.Explore()
+	if _, err := w.sess.Proxy("Probe", 424242); err == nil {
+		vrt.Failf("proxy-to-missing-object", "Proxy(Probe, 424242) succeeded although the service has no such object")
+	}
+	vrt.Quiesce()
+	errs := make([]error, 2)
+	var ws []*vrt.Thread
+	for i := 0; i < 2; i++ {
+		i := i
+		ws = append(ws, vrt.GoWorker(fmt.Sprintf("g%d", i), func() {
+			q, err := w.sess.Proxy("Probe", 1)
+			if err == nil {
+				_, err = probe.MakeProbe(w.sess, q).Echo(int32(30 + i))
+			}
+			errs[i] = err
+		}))
+	}
+	vrt.Quiesce()
+	fx.Settle(ws...)
+	for i, e := range errs {
+		if e != nil {
+			vrt.Failf("request-failed/after-failed-request", "g%d: %v", i, e)
+		}
+	}
+	if v, err := probe.MakeProbe(w.sess, p).Echo(2); err != nil || v != probe.EchoResult(2) {
+		vrt.Failf("proxy-not-working/after-failed-request", "the proxy obtained before the failed request no longer works: %v", err)
+	}
+	if n := vnet.OpenClientConns("tcp://b") - 1; n > 1 {
+		vrt.Failf("duplicate-connection/tcp://b", "the session holds %d open connections to tcp://b after a request that failed remotely", n)
+	}
+	vrt.Observe("dials=%d open=%d", vnet.Dials["tcp://b"], vnet.OpenClientConns("tcp://b"))
+}
 
 func init() {
+	reg.Register(&reg.Scenario{Property: "C19", Name: "hung-endpoint", Body: hung, Quick: 1, Thorough: 2,
+		Doc: "one goroutine asks for a service whose endpoint accepts but never answers; two others ask for a healthy new endpoint and for the pooled directory connection: they are served"})
+	reg.Register(&reg.Scenario{Property: "C19", Name: "failed-request-then-requests", Body: failedThenAgain, Quick: 1, Thorough: 2,
+		Doc: "Proxy(Probe) succeeds, Proxy(Probe, no-such-object) fails remotely, then two goroutines ask again: same pooled connection, earlier proxy still works"})
+	reg.Register(&reg.Scenario{Property: "C19", Name: "three-mixed-several-addresses", Body: body([]string{"Probe", "ServiceDirectory", "Other"}, false, true), Quick: 1, Thorough: 2,
+		Doc: "three-mixed with both hosts advertised with a common test-range address, a common dead address and their real one"})
 	reg.Register(&reg.Scenario{Property: "C19", Name: "unreachable-service", Body: unreachable, Quick: 1, Thorough: 2,
 		Doc: "a registered service whose advertised addresses are never dialled (test range) or dead: its request fails with an error, no crash, while another goroutine gets a working proxy to a reachable service"})
 	reg.Register(&reg.Scenario{Property: "C19", Name: "reconnect-after-connection-loss", Body: reconnect, Quick: 1, Thorough: 2,
